@@ -177,7 +177,7 @@ def gen_cases(tier, seed):
     rnd = random.Random(seed)
     cases = []
     stacks = ["client", "pooled", "hash"]
-    prefixes = [b"", b"pfx:", b"p" * 249]
+    prefixes = [b"", b"pfx:", b"p" * 249, b"bad pfx:", b"pf\r\nx:"]
 
     def cfgs():
         for st in stacks:
@@ -254,6 +254,12 @@ def gen_cases(tier, seed):
                 cases.append(Case(op, ["k"], delta=d, stack=st, badarg=True))
         if st != "hash":
             cases.append(Case("flush_all", [], exp="0", stack=st, badarg=True))
+        # a non-integer is refused every time: also right after the integer it equals went through (30, then 30.0)
+        for op in ("touch", "set", "gat"):
+            cases.append(Case(op, ["k"], exp=30, stack=st))
+            cases.append(Case(op, ["k"], exp=30.0, stack=st, badarg=True))
+        cases.append(Case("incr", ["k"], delta=7, stack=st, nrarg="false"))
+        cases.append(Case("incr", ["k"], delta=7.0, stack=st, badarg=True))
     # 4b. a serializer with its own flags, and explicit flags (0 included) overriding them
     for st in stacks:
         for op in STORE1 + ["set_many"]:
